@@ -35,6 +35,9 @@ CHECKS["C11"] = dict(text="Lean theorems over every label sequence of the open r
 CHECKS["C08"] = dict(text="Lean theorems over every history of UDP sockets in the same open system: receive-buffer account = sum of queued payloads (the invariant the truncation defect broke; as-is starvation witness), FIFO hand-out, at most once, payload = oldest datagram cut to the buffers with the rest discarded, exactly one datagram per call, a parked reader implies an empty queue (no lost wake-up), a drained reader accepts every datagram that fits, complete send_to decision table (empty, > 65535, DF over MTU reported sent and not forwarded, pacing full, no binding, else exactly one packet with the sender's endpoint on the route ending in the destination holder's current forwarder), close discards and detaches for ever, right-socket (forwarder identity); exact correspondence + monitor (at most once, intact, right socket, order, sender endpoint through NAT, nothing after close, loss only for a stated reason) on implementation traces",
     note=TB + "tail-drop reasons are judged conservatively by the monitor (loss is flagged only when every queue on the route is unlimited and the reader was parked on an empty queue)", ref="§5b C08",
     tech="Lean 4 proof: invariant over all histories incl. ghost delivery logs; model/implementation correspondence")
+CHECKS["C06"] = dict(text="PARTIAL by nature (liveness is not proved). Lean theorems over every label sequence of the open sender system (writes with any layout, ACKs, hand-backs of dropped segments at ANY point incl. synchronously inside the segmentation and retransmission loops, SYN-ACK) and of the open receiver system (arbitrary arrivals, reads, wait-for-read): window floor mss <= cwnd; in-flight account = sum of outstanding sizes with keys = segments in the network or awaiting ACK; a parked writer implies window full or handshake unfinished or retransmissions pending, hence with nothing to retransmit something is outstanding; after every ACK a writer that fits has been re-run; retransmissions keep their drop callback; a pending read implies an empty incoming queue; connects to an acceptor with an accept outstanding complete; tail-drop with capacity >= packet implies a non-empty queue; as-is witnesses for the four repaired defects. Check: bulk transfers through 1-3 queue hops each way must complete, exactly as the world model predicts",
+    note=TB + "the concrete window policy is modelled, so a harmless policy change breaks this correspondence; `C06_no_orphan_resend` (composition of the sender with the route's queues under the statement's side conditions) and `quiescent => delivered = written` are not proved, only checked on generated transfers", ref="§5b C06",
+    tech="Lean 4 proof: quiescence-safety invariants of the open sender/receiver systems; model/implementation correspondence")
 CHECKS["C10"] = dict(text="Lean theorems: byte account = sum of queued sizes = accepted - forwarded; drop iff droppable and capacity>0 and held+size>capacity (mechanism function and logged flag for every arrival of every history); control packets and capacity 0 never drop; conservation (every arrival forwarded xor dropped xor still queued, FIFO identity); drop callback exactly once, at the drop instant, with the packet intact; correspondence and trace-level statement as C09",
     note=TB + "'intact' covers payload size/type/sequence/overhead (the callback member itself is moved out by design)", ref="§5 C10",
     tech="Lean 4 proof: open-system invariant; model/implementation correspondence")
